@@ -201,8 +201,8 @@ func driveBare(t *testing.T, prop string, kinds []int, nCases, nOps int) {
 					rep.Evaluations++
 					rep.Count(name + ".add-partition")
 				case kind >= 3: // RemovePartition
-					if len(s.Live) <= 1 {
-						continue
+					if len(s.Live) == 0 || (len(s.Live) == 1 && (kind != 4 || !r.Bool(25))) {
+						continue // the predicate strategy may lose its last partition (everything is then refused until one is added again)
 					}
 					key := s.Live[r.Intn(len(s.Live))].key
 					// mirror the removal on the id list
@@ -811,6 +811,50 @@ func TestC01Stress(t *testing.T) {
 		if refused2 > 0 {
 			rep.Violate(stratNames[kind]+":stress-refused-with-room", fmt.Sprintf("%d of %d TryAcquire calls were refused with at most 16 tokens out and a limit of 64", refused2, tries2), map[string]interface{}{"kind": kind})
 		}
+		// third phase: the strategy used directly (no limiter mutex in front of it) at a small limit, with a metrics backend that takes its time
+		if kind == 2 {
+			ps := strategy.NewPreciseStrategyWithMetricRegistry(2, slowRegistry{})
+			var h3, max3, n3 int64
+			stop3 := make(chan struct{})
+			var wg3 sync.WaitGroup
+			for g := 0; g < 16; g++ {
+				wg3.Add(1)
+				go func() {
+					defer wg3.Done()
+					for {
+						select {
+						case <-stop3:
+							return
+						default:
+						}
+						tok, ok := ps.TryAcquire(context.Background())
+						atomic.AddInt64(&n3, 1)
+						if ok {
+							h := atomic.AddInt64(&h3, 1)
+							for {
+								m := atomic.LoadInt64(&max3)
+								if h <= m || atomic.CompareAndSwapInt64(&max3, m, h) {
+									break
+								}
+							}
+							runtime.Gosched()
+							atomic.AddInt64(&h3, -1)
+							tok.Release()
+						}
+					}
+				}()
+			}
+			time.Sleep(dur / 4)
+			close(stop3)
+			wg3.Wait()
+			rep.Evaluations += int(n3)
+			if max3 > 2 {
+				rep.Violate("precise:stress-over-admission", fmt.Sprintf("precise strategy used directly: %d simultaneous holders with limit 2", max3), map[string]interface{}{"kind": kind, "max_holders": max3, "direct": true})
+			}
+			if b := ps.GetBusyCount(); b != 0 {
+				rep.Violate("precise:stress-capacity-leak", fmt.Sprintf("precise strategy used directly: busy count %d with every token released", b), map[string]interface{}{"kind": kind, "direct": true})
+			}
+		}
 		// quiescent: all released; the full limit must be admitted again
 		st.SetLimit(3)
 		n := 0
@@ -821,6 +865,189 @@ func TestC01Stress(t *testing.T) {
 		}
 		if n != 3 {
 			rep.Violate(stratNames[kind]+":stress-capacity-leak", fmt.Sprintf("after the stress run %d of 3 acquisitions were granted", n), map[string]interface{}{"kind": kind})
+		}
+	}
+}
+
+// A limit algorithm that panics while a completion is being reported must not cost the caller's unit: whatever the algorithm does,
+// one completion gives back exactly one unit (the panic is recovered by the caller, as a gRPC recovery interceptor would).
+func TestC01Panic(t *testing.T) {
+	rep := NewReport("C01panic")
+	defer rep.Write(t)
+	root := NewRng(Seed())
+	for _, kind := range []int{1, 2, 3} {
+		for ci := 0; ci < Scale(40, 500); ci++ {
+			r := root.Fork()
+			cfg := GenLimCfg(r, kind)
+			cfg.Est0 = r.Pick(2, 3, 5, 10)
+			cfg.S.Total = cfg.Est0
+			cfg.Thr = r.Pick(0, 1000) // a burst of WSize+2 qualifying completions fits inside the shortest window period
+			synctest.Test(t, func(t *testing.T) {
+				l, err := NewLimSUT(cfg)
+				if err != nil {
+					rep.Count("constructor-error")
+					return
+				}
+				name := stratNames[kind]
+				var hist [][]int64
+				fail := func(sig, d string) {
+					rep.Violate(name+":"+sig, fmt.Sprintf("%s (cfg=%v after %d ops)", d, cfg.Ints(), len(hist)), map[string]interface{}{"component": "default-limiter-panicking-limit", "cfg": cfg.Ints(), "ops": hist})
+				}
+				armed := false
+				l.Script.onSet = func() {
+					if armed {
+						armed = false
+						panic("limit algorithm failed")
+					}
+				}
+				check := func(what string) {
+					out := int64(0)
+					for _, d := range l.Done {
+						if !d {
+							out++
+						}
+					}
+					if b, g := l.S.Busy(), l.Lim.VerifInFlight(); b != out || g != out {
+						fail("panic-leaks-unit", fmt.Sprintf("%s: strategy busy %d, in-flight gauge %d, but %d granted listeners have not completed", what, b, g, out))
+					}
+				}
+				for i := 0; i < Scale(150, 300); i++ {
+					switch op := r.Intn(10); {
+					case op < 4:
+						key := int64(0)
+						if kind >= 3 {
+							key = int64(1 + r.Intn(len(cfg.S.Parts)+1))
+						}
+						_, now := l.Acquire(key)
+						hist = append(hist, []int64{1, key, now})
+					case op < 8:
+						var cand []int
+						for j, d := range l.Done {
+							if !d {
+								cand = append(cand, j)
+							}
+						}
+						if len(cand) == 0 {
+							continue
+						}
+						k := cand[r.Intn(len(cand))]
+						oc := r.Pick(0, 0, 0, 2, 2, 1)
+						armed = r.Bool(50)
+						wasArmed := armed
+						time.Sleep(time.Duration(cfg.Thr + 1))
+						func() {
+							defer func() {
+								if recover() != nil {
+									l.Done[k] = true
+									rep.Count(fmt.Sprintf("panic-in-outcome-%d", oc))
+								}
+							}()
+							_, now := l.Complete(k, oc)
+							hist = append(hist, []int64{2, int64(k), oc, now, B(wasArmed)})
+						}()
+						armed = false
+						rep.Evaluations++
+						check(fmt.Sprintf("after completion %d (outcome %d)", k, oc))
+					case op < 9:
+						time.Sleep(time.Duration(r.Pick(cfg.MinW, cfg.MaxW+1, cfg.MinW/3+1)))
+					default:
+						// directed: fill a window quickly (it is ready, its period not yet over), let the period pass, then the completion
+						// that closes it - a drop two times out of three - finds the algorithm panicking
+						one := func(oc int64, arm bool) {
+							key := int64(0)
+							if kind >= 3 {
+								key = int64(1 + r.Intn(len(cfg.S.Parts)))
+							}
+							ok, now := l.Acquire(key)
+							hist = append(hist, []int64{1, key, now})
+							if !ok {
+								return
+							}
+							k := len(l.Listeners) - 1
+							time.Sleep(time.Duration(cfg.Thr + 1))
+							armed = arm
+							func() {
+								defer func() {
+									if recover() != nil {
+										l.Done[k] = true
+										rep.Count(fmt.Sprintf("panic-in-outcome-%d", oc))
+									}
+								}()
+								_, now := l.Complete(k, oc)
+								hist = append(hist, []int64{2, int64(k), oc, now, B(arm)})
+							}()
+							armed = false
+							rep.Evaluations++
+							check(fmt.Sprintf("after completion %d (outcome %d)", k, oc))
+						}
+						time.Sleep(time.Duration(cfg.MaxW + 1))
+						for j := int64(0); j < 2*(cfg.WSize+2); j++ {
+							one(0, false)
+						}
+						time.Sleep(time.Duration(cfg.MaxW + 1))
+						one(r.Pick(2, 2, 0), true)
+					}
+				}
+				for k, d := range l.Done {
+					if !d {
+						l.Complete(k, 1)
+					}
+				}
+				check("after completing everything")
+				if kind <= 2 {
+					lim, n := l.S.Limit(), int64(0)
+					for i := int64(0); i < lim+2; i++ {
+						if ok, _ := l.Acquire(0); ok {
+							n++
+						}
+					}
+					if n != lim {
+						fail("panic-leaks-unit", fmt.Sprintf("at quiescence %d of %d acquisitions were granted", n, lim))
+					}
+				}
+				rep.Distinct("panic-history", fmt.Sprint(kind, cfg.Ints(), len(hist)))
+			})
+		}
+	}
+}
+
+// the gate counters of the bare strategies under limit changes (conservation part only)
+func TestC02Bare(t *testing.T) {
+	bareOnly = map[string]bool{"busy-not-outstanding": true, "refusal-changed-busy": true, "busy-not-incremented": true, "release-not-one": true, "bin-count": true, "bins-sum": true}
+	driveBare(t, "C02bare", []int{1, 2, 3, 4}, Scale(150, 2000), Scale(60, 120))
+}
+
+// every constructor of the default limiter leaves the strategy enforcing the limit's current estimate
+func TestC05Constructors(t *testing.T) {
+	rep := NewReport("C05ctor")
+	defer rep.Write(t)
+	for _, kind := range []int{1, 2, 3, 4} {
+		for _, total := range []int64{1, 3, 7, 50, 500} {
+			cfg := StratCfg{Kind: kind, Total: total}
+			if kind >= 3 {
+				cfg.Parts = []PartSpec{{1, 0.25}, {2, 0.5}}
+			}
+			s, err := NewSUT(cfg)
+			if err != nil {
+				rep.Count("constructor-error")
+				continue
+			}
+			l, err := limiter.NewDefaultLimiterWithDefaults("c05", s.Strat, limit.NoopLimitLogger{}, core.EmptyMetricRegistryInstance)
+			if err != nil {
+				rep.Count("constructor-error")
+				continue
+			}
+			rep.Evaluations++
+			est := int64(l.EstimatedLimit())
+			rep.Distinct("with-defaults", fmt.Sprint(kind, total, est))
+			if got := s.Limit(); got != max64(1, est) {
+				rep.Violate(stratNames[kind]+":initial-limit", fmt.Sprintf("NewDefaultLimiterWithDefaults: the limit's estimate is %d, the strategy (built with %d) enforces %d", est, total, got), map[string]interface{}{"component": "default-limiter-with-defaults", "kind": kind, "strategy_built_with": total})
+			}
+			for bi, b := range s.Bins() {
+				if w := shareOf(max64(1, est), s.Live[bi].pct); b[1] != w {
+					rep.Violate(stratNames[kind]+":stale-share", fmt.Sprintf("NewDefaultLimiterWithDefaults: estimate %d, bin %d (fraction %v) has limit %d, expected %d", est, bi, s.Live[bi].pct, b[1], w), map[string]interface{}{"component": "default-limiter-with-defaults", "kind": kind, "strategy_built_with": total})
+				}
+			}
 		}
 	}
 }
